@@ -123,7 +123,7 @@ def regex_call(I, how, pattern, s):
         mv.declared_only = True
         return mv
     env = getattr(I.env.current, 'regex_env', None) or {}
-    if src is not None and key not in env:
+    if src is not None and key not in env and '*' not in env:
         raise Unsupported(f'concrete regex {key[:40]!r} applied to an unstructured symbolic string')
     mode = env.get(key, env.get('*', 'any'))
     cnt = I.p.ghost.setdefault(('rxcount', key), [0])
